@@ -619,6 +619,18 @@ func c05units(tier string) []mc.Unit {
 			}})
 		}
 	}
+	// the two remaining accepted nucleotide letters, U and Z, as letters of their own: single-stranded DNA over
+	// {A,C,G,T,U,Z} (U is a different letter from T unless the molecule is declared RNA; the strand clauses do not
+	// apply to letters without a complement, hence single-stranded only)
+	for _, circ := range []bool{false, true} {
+		circ := circ
+		for n := 1; n <= tier2(tier, 4, 5); n++ {
+			n := n
+			us = append(us, mc.Unit{Name: fmt.Sprintf("acgtuz/n=%d/circ=%v", n, circ), Weight: int(pow(6, n)/100) + 1, Run: func(r *mc.Recorder) {
+				c05table(r, "ACGTUZ", n, shFlags{"DNA", circ, false})
+			}})
+		}
+	}
 	// long inputs: the value is still v1_<tag>_<BLAKE3 of the canonical representative> (linear-time oracle)
 	for _, n := range shLongLengths(tier) {
 		n := n
